@@ -373,7 +373,7 @@ def worker(acc, shard, nshards, tier, seed):
                 nt = True
         acc.case(sub, nontrivial=nt)
         acc.outcome(tuple(round(x, 9) for x in ref[:3]))
-        if acc.states % 1009 == 1:
+        if not acc.samples or acc.states % 1009 == 1:
             acc.sample({'query': q, 'series': s, 'penalty': pen, 'ndim': nd})
     depth = 4 if tier == 'thorough' else 3
     for q, s, pen, a1_, a2_ in hist_universe(tier, seed, shard, nshards):
